@@ -47,7 +47,23 @@ def _split(data: bytes, parts: int, rng) -> list:
     return [data[a:b] for a, b in zip([0] + cuts, cuts + [len(data)])]
 
 
-def _enc1(data: bytes, coding: str, rng):
+def _parts(data: bytes, rng, members):
+    """Split `data` into member payloads: explicit sizes when given, else 2-3 random parts."""
+    if members:
+        out, pos = [], 0
+        for m in members:
+            out.append(data[pos:pos + m])
+            pos += m
+        if pos != len(data):
+            raise GenError("member sizes do not cover the payload")
+        return out
+    parts = _split(data, rng.choice([2, 3]), rng) if data else [b"", b""]
+    if len(parts) == 1:
+        parts = [parts[0], b""]
+    return parts
+
+
+def _enc1(data: bytes, coding: str, rng, members=None):
     """One coding layer.  Returns (encoded, boundaries) where boundaries are the offsets in `encoded`
     at which a member / frame ends (including the final one)."""
     if coding == "identity":
@@ -56,9 +72,7 @@ def _enc1(data: bytes, coding: str, rng):
         e = gzip.compress(data, mtime=0)
         return e, [len(e)]
     if coding == "gzip-mm":
-        parts = _split(data, rng.choice([2, 3]), rng) if data else [b"", b""]
-        if len(parts) == 1:
-            parts = [parts[0], b""]
+        parts = _parts(data, rng, members)
         out, bounds = b"", []
         for p in parts:
             out += gzip.compress(p, mtime=0)
@@ -75,9 +89,7 @@ def _enc1(data: bytes, coding: str, rng):
         e = zstandard.ZstdCompressor(level=3).compress(data)
         return e, [len(e)]
     if coding == "zstd-mf":
-        parts = _split(data, rng.choice([2, 3]), rng) if data else [b"", b""]
-        if len(parts) == 1:
-            parts = [parts[0], b""]
+        parts = _parts(data, rng, members)
         out, bounds = b"", []
         for p in parts:
             out += zstandard.ZstdCompressor(level=3).compress(p)
@@ -115,14 +127,27 @@ def _dec1(data: bytes, coding: str) -> bytes:
     raise GenError("unknown coding " + coding)
 
 
-def encode(data: bytes, coding: str, seed: int):
+def encode(data: bytes, coding: str, seed: int, members=None):
     """Apply a (possibly stacked) coding.  Returns (encoded, Content-Encoding value or None, boundaries of the
-    OUTERMOST layer, list of layer names in application order)."""
+    OUTERMOST layer, list of layer names in application order).  `members` = explicit payload sizes of the
+    members / frames of the (single) multi-member layer; for a stack they apply to the outermost layer, whose
+    input is then split proportionally."""
     rng = random.Random(seed * 104729 + len(data))
     layers = coding.split(",")
     cur, bounds = data, []
-    for ly in layers:
-        cur, bounds = _enc1(cur, ly, rng)
+    for i, ly in enumerate(layers):
+        mem = None
+        if members and ly in ("gzip-mm", "zstd-mf") and i == len(layers) - 1:
+            if len(layers) == 1:
+                mem = list(members)
+            else:                                   # split the inner layer's output in the same proportions
+                tot, acc, mem = sum(members) or 1, 0, []
+                for m in members[:-1]:
+                    k = max(1, min(len(cur) - 1, (len(cur) * (acc + m)) // tot)) - sum(mem)
+                    mem.append(max(0, k))
+                    acc += m
+                mem.append(len(cur) - sum(mem))
+        cur, bounds = _enc1(cur, ly, rng, mem)
     hdr = ", ".join(HEADER[ly] for ly in layers if HEADER[ly]) or None
     return cur, hdr, bounds, layers
 
@@ -195,34 +220,121 @@ def chunked_wire(body: bytes, sizes: list, ext: bool, seed: int):
     return bytes(out), lay
 
 
+# ------------------------------------------------------------------ independent streaming verdict
+def _status1(data: bytes, layer: str):
+    """Verdict of an independent STREAMING decoder for one layer on `data`:
+    (status, output, zstd_incomplete) with status in ok | incomplete | error | latererror | empty."""
+    if layer == "identity":
+        return "ok", data, False
+    if not data:
+        return "empty", b"", False
+    if layer in ("gzip", "gzip-mm"):
+        pos, out, members = 0, b"", 0
+        while True:
+            d = zlib.decompressobj(16 + zlib.MAX_WBITS)
+            try:
+                out += d.decompress(data[pos:])
+            except zlib.error:
+                return ("latererror" if members else "error"), out, False
+            if not d.eof:
+                return "incomplete", out, False
+            members += 1
+            if not d.unused_data:
+                return "ok", out, False
+            pos = len(data) - len(d.unused_data)
+    if layer in ("deflate", "deflate-raw"):
+        # "deflate" on the wire is zlib or raw deflate in practice: decodable if either reading works
+        best = None
+        for wb in (zlib.MAX_WBITS, -zlib.MAX_WBITS):
+            d = zlib.decompressobj(wb)
+            try:
+                out = d.decompress(data)
+            except zlib.error:
+                continue
+            st = "ok" if d.eof else "incomplete"
+            if best is None or (st == "ok" and best[0] != "ok"):
+                best = (st, out, False)
+        return best or ("error", b"", False)
+    if layer in ("zstd", "zstd-mf"):
+        pos, out = 0, b""
+        while pos < len(data):
+            o = zstandard.ZstdDecompressor().decompressobj()
+            try:
+                out += o.decompress(data[pos:])
+            except zstandard.ZstdError:
+                return "error", out, False
+            if not o.eof:
+                return "incomplete", out, True
+            pos = len(data) - len(o.unused_data)
+        return "ok", out, False
+    raise GenError("unknown coding " + layer)
+
+
+def stream_status(raw: bytes, coding: str):
+    """Verdict on the whole (possibly stacked) content coding, outermost layer first.
+    -> (indep, strict, output) : indep as in spec/BodyRules.tla; strict = zstd's rule applies (for an incomplete
+    stream: a zstd layer is among the incomplete ones; otherwise: some layer is zstd)."""
+    layers = coding.split(",")
+    data, worst, zinc = raw, "ok", False
+    for ly in reversed(layers):
+        st, data, zi = _status1(data, ly)
+        zinc = zinc or zi
+        if st in ("error", "latererror"):
+            return st, any(x.startswith("zstd") for x in layers), data
+        if st == "empty":
+            return ("empty" if worst == "ok" else worst), any(x.startswith("zstd") for x in layers), b""
+        if st == "incomplete":
+            worst = "incomplete"
+    strict = zinc if worst == "incomplete" else any(x.startswith("zstd") for x in layers)
+    return worst, strict, data
+
+
+DMG_KIND = {"none": "none", "cut": "cut", "badsize": "badsize", "negsize": "negsize", "emptysize": "emptysize",
+            "corruptcode": "corrupt", "trunccode": "none"}
+
+
 def build(case: dict) -> dict:
-    """case: size, pseed, coding, framing, chunks (kind), ext (bool), [damage: {kind, at, byte}]
-    -> dict(head, wire, layout, raw, expect_decoded, ce, bounds, close, cut, dmg_class ...)."""
-    pl = payload(case["size"], case.get("pseed", 0))
-    enc, ce, bounds, layers = encode(pl, case["coding"], case.get("pseed", 0))
+    """case: size | members (payload bytes per member / frame), pseed, coding, framing, chunks (kind) | sizes
+    (explicit chunk-size vector), ext (bool), decode (bool, default True),
+    damage: {kind: cut | badsize | negsize | emptysize | corruptcode | trunccode, at, ...}
+    -> head, wire (damaged body bytes as sent), layout of the undamaged framing, raw (transfer-decoded content as
+    sent), payload (decoded), expected (what the caller must receive), facts (spec/BodyRules.tla), cut, ..."""
+    members = case.get("members")
+    size = sum(members) if members else case["size"]
+    seed = case.get("pseed", 0)
+    pl = payload(size, seed)
+    enc, ce, bounds, layers = encode(pl, case["coding"], seed, members)
     ok, back = try_decode(enc, case["coding"])
     if not ok or back != pl:
         raise GenError("independent decoder does not invert the encoder for %r" % (case,))
     framing = case["framing"]
+    decode_on = bool(case.get("decode", True))
     hs = [("Content-Type", "application/octet-stream")]
     if ce:
         hs.append(("Content-Encoding", ce))
-    dmg = case.get("damage")
-    raw = enc
-    codepos = None
-    if dmg and dmg["kind"] == "corruptcode":
-        # single-byte corruption of the compressed stream (position given as a fraction index)
+    dmg = case.get("damage") or None
+    kind = dmg["kind"] if dmg else "none"
+    raw, codepos = enc, None
+    if kind == "corruptcode":
+        if case["coding"] == "identity":
+            raise GenError("nothing to corrupt in an identity body")
         codepos = dmg["at"] % max(1, len(enc))
         b = bytearray(enc)
         b[codepos] ^= dmg.get("xor", 0x55) or 0x55
         raw = bytes(b)
+    elif kind == "trunccode":
+        if case["coding"] == "identity" or not (0 < dmg["at"] < len(enc)):
+            raise GenError("truncation point outside the encoded stream")
+        raw = enc[:dmg["at"]]
     if framing == "cl":
         hs.append(("Content-Length", str(len(raw))))
         wire, lay = raw, [("data", 0, len(raw), 0)]
     elif framing == "chunked":
         hs.append(("Transfer-Encoding", "chunked"))
-        sizes = chunk_vector(len(raw), case.get("chunks", "rand"), case.get("pseed", 0))
-        wire, lay = chunked_wire(raw, sizes, bool(case.get("ext")), case.get("pseed", 0))
+        sizes = case.get("sizes")
+        if sizes is None:
+            sizes = chunk_vector(len(raw), case.get("chunks", "rand"), seed)
+        wire, lay = chunked_wire(raw, list(sizes), bool(case.get("ext")), seed)
     elif framing == "close":
         hs.append(("Connection", "close"))
         wire, lay = raw, [("data", 0, len(raw), 0)]
@@ -230,18 +342,16 @@ def build(case: dict) -> dict:
         raise GenError("unknown framing " + framing)
     head = ("HTTP/1.1 200 OK\r\n" + "".join(f"{k}: {v}\r\n" for k, v in hs) + "\r\n").encode("latin-1")
     res = {"payload": pl, "enc": enc, "raw": raw, "ce": ce, "bounds": bounds, "layers": layers, "head": head,
-           "wire": wire, "layout": lay, "close": framing == "close", "cut": None, "dclass": "none",
-           "must_error": False, "check_bytes": True, "codepos": codepos}
-    if not dmg:
-        return res
-    k = dmg["kind"]
-    if k == "cut":
+           "wire": wire, "layout": lay, "close": framing == "close", "cut": None, "codepos": codepos,
+           "garbled": kind in ("badsize", "negsize", "emptysize", "corruptcode", "trunccode")}
+    carried = raw                                # content bytes the (damaged) framing still carries
+    if kind == "cut":
         at = dmg["at"]
         if not (0 <= at < len(wire)):
             raise GenError("cut outside the wire body")
         res["cut"] = at
-        res.update(classify_cut(framing, lay, at, raw, case["coding"], wire))
-    elif k in ("badsize", "negsize", "emptysize"):
+        carried = b"".join(wire[a:min(b, at)] for k, a, b, _ in lay if k == "data" and a < at)
+    elif kind in ("badsize", "negsize", "emptysize"):
         if framing != "chunked":
             raise GenError("chunk-size corruption needs chunked framing")
         sizes_l = [x for x in lay if x[0] == "size"]
@@ -252,65 +362,26 @@ def build(case: dict) -> dict:
         ndig = 0
         while ndig < len(line) and line[ndig:ndig + 1] not in (b";", b"\r"):
             ndig += 1
-        if k == "badsize":
+        if kind == "badsize":
             line[dmg.get("digit", 0) % ndig] = ord(dmg.get("byte", "g"))
             new = bytes(line)
-        elif k == "negsize":
-            if ndig < 2:
-                raise GenError("negative size needs a two-digit size line")
-            line[0] = ord("-")
-            new = bytes(line)
+        elif kind == "negsize":
+            new = b"-" + bytes(line)
         else:
             new = bytes(line[ndig:])
         res["wire"] = wire[:ent[1]] + new + wire[ent[2]:]
-        res["dclass"] = k
-        res["must_error"] = True
-        res["check_bytes"] = True           # whatever is delivered before the bad line is still a prefix
         res["bad_chunk"] = ent[3]
-    elif k == "corruptcode":
-        ok2, back2 = try_decode(raw, case["coding"])
-        first_end = bounds[0] if bounds else len(enc)
-        outer = layers[-1]
-        if ok2:
-            # the independent decoder accepts the corrupted stream: its output is the reference
-            res["dclass"] = "corrupt-decodable"
-            res["payload"] = back2
-            res["must_error"] = False
-            res["either"] = True
-            res["check_bytes"] = False
-        elif outer in ("gzip", "gzip-mm") and codepos >= first_end:
-            # urllib3 (like other clients) tolerates garbage after the first gzip member: Either
-            res["dclass"] = "corrupt-later-member"
-            res["either"] = True
-            res["check_bytes"] = False
-        else:
-            res["dclass"] = "corrupt-undecodable"
-            res["must_error"] = True
-            res["check_bytes"] = False
+    if decode_on:
+        indep, strict, out = stream_status(carried, case["coding"])
+        expected = pl
+        if kind == "corruptcode" and indep == "ok":
+            expected = out
     else:
-        raise GenError("unknown damage " + k)
+        indep, strict, expected = "ok", False, raw
+    res["expected"] = expected
+    res["facts"] = {"framing": framing, "strict": bool(strict), "decoding": bool(decode_on and ce),
+                    "dmg": DMG_KIND[kind], "indep": indep, "total": len(expected),
+                    "checkbytes": kind != "corruptcode"}
+    res["layout3"] = [[k, a, b] for k, a, b, _ in lay]
+    res["cutat"] = res["cut"] if res["cut"] is not None else 0
     return res
-
-
-def classify_cut(framing, lay, at, raw, coding, wire):
-    """Where does a cut after `at` wire bytes fall relative to the framing?"""
-    strict = coding.split(",")[-1] in STRICT
-    if framing == "cl":
-        return {"dclass": "cut-cl", "must_error": True}
-    if framing == "chunked":
-        for kind, a, b, i in lay:
-            if a <= at < b or (at == a == b):
-                break
-        last = [x for x in lay if x[0] == "last"][0]
-        if at <= last[1]:
-            cls = {"size": "cut-size-line", "data": "cut-chunk-data", "crlf": "cut-chunk-crlf",
-                   "last": "cut-before-last"}[kind]
-            return {"dclass": cls, "must_error": True}
-        return {"dclass": "cut-in-last-or-trailer", "must_error": False, "either": True}
-    # close-delimited: the framing cannot tell; only a strict coding can
-    if coding == "identity":
-        return {"dclass": "cut-close-identity", "must_error": False, "either": True, "check_bytes": True}
-    ok, _ = try_decode(raw[:at], coding)
-    if strict and not ok:
-        return {"dclass": "cut-close-strict", "must_error": True}
-    return {"dclass": "cut-close-lenient", "must_error": False, "either": True}
